@@ -237,7 +237,7 @@ impl Session {
         // operations on an object that does not exist (its creation failed earlier in the scenario)
         let needs = match toks.as_slice() {
             ["c", ..] => Some(self.client.is_some()),
-            ["k", ..] | ["poll"] | ["poll_keep"] | ["seek", ..] | ["consume", ..] | ["commit"] | ["subscriptions"] | ["last_consumed", ..]
+            ["k", ..] | ["poll"] | ["poll_keep"] | ["poll_mark"] | ["seek", ..] | ["consume", ..] | ["commit"] | ["subscriptions"] | ["last_consumed", ..]
             | ["consumer_into_client"] => Some(self.cons.is_some()),
             ["p", ..] | ["send_all", ..] | ["send", ..] | ["producer_into_client"] => Some(self.prod.is_some()),
             ["consumer_create", "client", ..] | ["producer_create", "client", ..] => Some(self.client.is_some()),
@@ -405,6 +405,15 @@ impl Session {
                     fmt_confirms,
                 )
             }
+            [tgt, "commit_offset", g, t, p, o] => {
+                let t = s(t);
+                res(self.target(tgt).unwrap().commit_offset(&s(g), &t, p.parse().unwrap(), o.parse().unwrap()), |_| "ok".into())
+            }
+            [tgt, "fetch_for_partition", t, p, off, mb] => {
+                let t = s(t);
+                let fp = FetchPartition::new(&t, p.parse().unwrap(), off.parse().unwrap()).with_max_bytes(mb.parse().unwrap());
+                res(self.target(tgt).unwrap().fetch_messages_for_partition(&fp), |rs| fmt_fetch(&rs))
+            }
             [tgt, "commit_offsets", g, args @ ..] => {
                 let topics: Vec<String> = args.chunks(3).map(|c| s(c[0])).collect();
                 let offs: Vec<CommitOffset<'_>> = args
@@ -472,6 +481,32 @@ impl Session {
                 }
             }
             ["poll"] => res(self.cons.as_mut().unwrap().poll(), |ms| fmt_poll(&ms)),
+            ["poll_mark"] => {
+                // poll, then mark every delivered message set as consumed (`consume_messageset`)
+                let k = self.cons.as_mut().unwrap();
+                match k.poll() {
+                    Err(e) => format!("err {}", err_str(&e)),
+                    Ok(ms) => {
+                        let mut out = fmt_poll(&ms);
+                        let mut marks: Vec<(Vec<u8>, i32, String)> = Vec::new();
+                        for set in ms.iter() {
+                            let r = k.consume_messageset(&set);
+                            marks.push((
+                                set.topic().as_bytes().to_vec(),
+                                set.partition(),
+                                match r {
+                                    Ok(()) => "ok".to_string(),
+                                    Err(e) => err_str(&e),
+                                },
+                            ));
+                        }
+                        marks.sort();
+                        out.push_str(" marks=");
+                        out.push_str(&marks.iter().map(|m| m.2.clone()).collect::<Vec<_>>().join(","));
+                        out
+                    }
+                }
+            }
             ["seek", t, p, o] => res(self.cons.as_mut().unwrap().seek(&s(t), p.parse().unwrap(), o.parse().unwrap()), |_| "ok".into()),
             ["consume", t, p, o] => {
                 res(self.cons.as_mut().unwrap().consume_message(&s(t), p.parse().unwrap(), o.parse().unwrap()), |_| "ok".into())
